@@ -1,4 +1,4 @@
-from planlib import geo, WRAP_FLAGS, WRAP_SRCS
+from planlib import geo, WRAP_FLAGS, WRAP_SRCS, desc_fuzz
 
 ENTRIES = ["vec_znx_normalize_base2k", "vec_znx_big_normalize_base2k", "vec_znx_big_range_normalize_base2k", "vec_znx_dft", "vec_znx_idft",
            "vec_znx_idft_tmp_a", "svp_prepare", "svp_apply_dft", "vmp_prepare_contiguous", "vmp_apply_dft", "vmp_apply_dft_to_dft",
@@ -39,6 +39,7 @@ PLAN = dict(
     assumptions=["scratch of exactly *_tmp_bytes(), opaque objects of exactly bytes_of_*() (NTT120: 32N / 16N bytes per limb as in the repo's test library)",
                  "8-byte alignment only"],
     quick=_jobs("quick"), thorough=_jobs("thorough"),
+    fuzz=desc_fuzz("C11", fix=dict(k=(1, 10), logm=(0, 10), logn=(1, 10))),
     required_classes=dict(all=["entry:" + e for e in ENTRIES + VEC] + ["zero_size:" + e for e in ZERO_OK + VEC] + ["offset:" + e for e in ENTRIES]
                           + ["module:NTT120", "cfg:generic"] + ["object:module_info:FFT64", "object:module_info:NTT120", "object:vmp_pmat",
                                                                 "object:q120_ntt_bb_precomp", "object:reim_fft_precomp"]),
